@@ -228,6 +228,87 @@ def chkCells (cfg : Cfg) (m : Mon) (r : StepRec) : Bool :=
     | some g => (List.range 4).all fun t => (r.after.text t).cells == expectedText cfg m r.before g t
     | none => (List.range 4).all fun t => (r.after.text t).cells == (r.before.text t).cells
 
+/-! ### the three properties that `chkCells` combines, each in its own strength
+
+`chkCells` is the complete closed form (it is what the model is proved to satisfy). A change that breaks one of
+C02 / C06 / C07 / C08 need not break the others, so each property gets its own predicate that demands exactly
+what its text states; all of them are consequences of `chkCells` (RdsProofs/RefineProofs.lean). -/
+
+/-- iterate a per-cell relation over every cell of every text after a delivered group.
+`rel t old new addr` where `old` is the cell before the call (after the C08 switch-discard, which C02 and C06
+explicitly leave to C08) and `addr = some (byte, error level of the carrying block)` if the group addresses the cell. -/
+def cellsBy (m : Mon) (r : StepRec) (g : Group) (rel : Nat → Cell → Cell → Option (Nat × Nat) → Bool) : Bool :=
+  (List.range 4).all fun t =>
+    let old0 := (r.before.text t).cells
+    let old := if switchDiscard m r.before g && t = 1 + g.b / 16 % 2 then old0.cleared else old0
+    let addr := (addressed g).filter (fun a => a.1 = t)
+    (r.after.text t).cells.length == old.length &&
+    (List.range old.length).all fun i =>
+      rel t (old.getD i blank) ((r.after.text t).cells.getD i blank)
+        ((addr.find? (fun a => a.2.1 = i)).map (fun a => (a.2.2.1, a.2.2.2)))
+
+/-- C02: a non-addressed cell never changes; an addressed cell either keeps its content or holds the table image
+of the received byte; with error-free blocks B and carrying block it holds exactly: end-of-text marker for 0x0D,
+old content for control codes below 0x20, otherwise the table image at level 0 -/
+def relC02 (cfg : Cfg) (eb : Nat) (_t : Nat) (old new : Cell) (addr : Option (Nat × Nat)) : Bool :=
+  match addr with
+  | none => new == old
+  | some (b, ex) =>
+    if eb = 0 && ex = 0 then
+      new == (if b = 0x0D then ⟨0, 0⟩ else if b < 0x20 then old else ⟨conv cfg b, 0⟩)
+    else new == old || new.ch == conv cfg b
+
+def chkC02 (cfg : Cfg) (m : Mon) (r : StepRec) : Bool :=
+  match r.op with
+  | .init | .clear => true
+  | _ =>
+    match r.op.group? with
+    | some g => cellsBy m r g (relC02 cfg g.eb)
+    | none => (List.range 4).all fun t => (r.after.text t).cells == (r.before.text t).cells
+
+/-- C06: an addressed cell changes only if eB ≤ info and eX ≤ data; a changed cell carries level 0 when both are
+error-free and 2·eB + 3·eX − 1 otherwise; bytes ≥ 0x7F and the end-of-text marker are taken only from error-free
+blocks; identical data with an equal or worse level is ignored; and, progressive correction aside (C07), a
+reception passing all these rules IS taken -/
+def relC06 (cfg : Cfg) (set : Settings) (eb : Nat) (t : Nat) (old new : Cell) (addr : Option (Nat × Nat)) : Bool :=
+  match addr with
+  | none => true
+  | some (b, ex) =>
+    let info := set.corr (textIdOf t) .info
+    let data := set.corr (textIdOf t) .data
+    let taken := cellSpec cfg info data false old b eb ex
+    if set.prog (textIdOf t) then new == old || new == taken else new == taken
+
+def chkC06 (cfg : Cfg) (m : Mon) (r : StepRec) : Bool :=
+  match r.op with
+  | .init | .clear => true
+  | _ =>
+    match r.op.group? with
+    | some g => rtNoisy m g || cellsBy m r g (relC06 cfg r.before.set g.eb)
+    | none => true
+
+/-- C08: after a type-2 group the buffer of the other flag is exactly as before; the buffer of the group's flag is
+emptied first exactly on a switch (`switchDiscard`), i.e. its non-addressed cells are blank then and unchanged
+otherwise; a noisy group (`rtNoisy`) changes no RT cell at all. Groups of other types never touch RT. -/
+def chkC08 (m : Mon) (r : StepRec) : Bool :=
+  match r.op with
+  | .init | .clear => true
+  | _ =>
+    match r.op.group? with
+    | some g =>
+      if rtNoisy m g then
+        r.after.rt0.cells == r.before.rt0.cells && r.after.rt1.cells == r.before.rt1.cells
+      else
+        (List.range 2).all fun f =>
+          let t := 1 + f
+          let old0 := (r.before.text t).cells
+          let old := if switchDiscard m r.before g && f = g.b / 16 % 2 then old0.cleared else old0
+          let addr := (addressed g).filter (fun a => a.1 = t)
+          (r.after.text t).cells.length == old.length &&
+          (List.range old.length).all fun i =>
+            (addr.find? (fun a => a.2.1 = i)).isSome || (r.after.text t).cells.getD i blank == old.getD i blank
+    | none => r.after.rt0.cells == r.before.rt0.cells && r.after.rt1.cells == r.before.rt1.cells
+
 /-! ## C07: progressive texts only improve -/
 def chkC07 (m : Mon) (r : StepRec) : Bool :=
   match r.op with
@@ -358,8 +439,8 @@ def Obs.fresh (set : Settings) : Obs :=
 
 def chkC13 (r : StepRec) : Bool :=
   match r.op with
-  | .clear => r.after == Obs.fresh r.before.set && r.evs.isEmpty
-  | .init => r.after == Obs.fresh Settings.init && r.evs.isEmpty
+  | .clear => r.after == Obs.fresh r.before.set
+  | .init => r.after == Obs.fresh Settings.init
   | _ => true
 
 /-! ## C14: hex-string input -/
@@ -394,8 +475,8 @@ def chkC16 (cfg : Cfg) (r : StepRec) : Bool :=
 
 /-- all per-call predicates, with the property each belongs to -/
 def allChecks (tb : Tabs) (m m' : Mon) (r : StepRec) : List (String × Bool) :=
-  [("C01", chkC01 m' r), ("C02", chkCells tb.cfg m r), ("C04", chkC04 m r && chkC04redeliver m r),
-   ("C06", chkCells tb.cfg m r), ("C07", chkC07 m r), ("C08", chkCells tb.cfg m r),
+  [("C01", chkC01 m' r), ("C02", chkC02 tb.cfg m r), ("C04", chkC04 m r && chkC04redeliver m r),
+   ("C06", chkC06 tb.cfg m r), ("C07", chkC07 m r), ("C08", chkC08 m r),
    ("C09", chkC09 m' r), ("C10", chkC10 m' r), ("C11", chkC11 tb m' r), ("C12", chkC12 m r),
    ("C13", chkC13 r), ("C14", chkC14 r), ("C15", chkC15 m r), ("C16", chkC16 tb.cfg r),
    ("C17", chkC17 m' r)]
